@@ -462,6 +462,31 @@ def observe(root, scn):
             obs["report_error"] = "%s: %s" % (type(e).__name__, str(e)[:300])
         finally:
             _registry_names(restore=True)
+        # every other shipped formatter must produce *a* report too (seeded change C04-m7: the run totals lost their zero-initialised keys when no file
+        # was scanned successfully, and only the text / screen formatters read them)
+        obs["other_formats"] = {}
+        if obs["report"] is not None:
+            from bandit.core import extension_loader
+            for fmt in sorted(extension_loader.MANAGER.formatter_names):
+                if fmt == "json":
+                    continue
+                if fmt == "sarif":
+                    try:
+                        import sarif_om, jschema_to_python  # noqa: F401
+                    except ImportError:
+                        continue
+                fp = os.path.join(root, "report." + fmt)
+                try:
+                    cap = C._KeepOpen()
+                    with contextlib.redirect_stdout(cap):
+                        mgr.output_results(3, "LOW", "LOW", open(fp, "w", encoding="utf-8"), fmt)
+                    obs["other_formats"][fmt] = None        # an empty document is a report too (the custom format lists findings only)
+                except BaseException as e:  # noqa
+                    obs["other_formats"][fmt] = "%s: %s" % (type(e).__name__, str(e)[:300])
+                finally:
+                    _registry_names(restore=True)
+                    if os.path.exists(fp):
+                        os.remove(fp)
     return obs
 
 
@@ -720,6 +745,10 @@ def check_scenario(res, drv, scratch, scn, obs, label, oracle=True):
             res.violation("no report could be produced: %s" % obs["report_error"], replay())
             ok = False
     else:
+        bad_fmt = {k: v for k, v in (obs.get("other_formats") or {}).items() if v}
+        if bad_fmt:
+            res.violation("the scan completed and the JSON report was produced, but other formatters could not produce a report: %s" % bad_fmt, replay({"formats": bad_fmt}))
+            ok = False
         if produced_model is False:
             res.notes.append("known finding %s no longer reproduces (%s): model and known_findings.json are due for an update" % (KF_STDIN, label))
         rep = obs["report"]
@@ -819,7 +848,7 @@ def enumeration(thorough):
     """all (N, position, fault kind[, ignore_nosec/debug]) combinations"""
     out = []
     body = b64(FAULTY_BODY)
-    for n in (2, 3, 4):
+    for n in (0, 2, 3, 4):         # n = 0: the faulty file is the only target (no file is scanned successfully)
         for pos in range(n + 1):
             for kind in list(NATURAL_OPEN) + list(IO_FAULTS):
                 step = IO_FAULTS[kind][0] if kind in IO_FAULTS else "open"
